@@ -13,7 +13,7 @@ use candid::types::internal::TypeContainer;
 use candid::types::Type;
 use candid::{CandidType, Decode, Deserialize, Encode, Int, Nat, Principal, Reserved};
 use std::any::Any;
-use std::collections::{BTreeMap, BTreeSet, HashMap, HashSet, VecDeque};
+use std::collections::{BTreeMap, BTreeSet, BinaryHeap, HashMap, HashSet, LinkedList, VecDeque};
 
 pub mod derived;
 
@@ -326,6 +326,70 @@ impl<T: SimTy> SimTy for VecDeque<T> {
         AV::Vec(self.iter().map(|v| v.av(c)).collect())
     }
 }
+impl<T: SimTy> SimTy for LinkedList<T> {
+    fn name() -> String {
+        format!("LinkedList<{}>", T::name())
+    }
+    fn sim_type(env: &mut SEnv) -> SType {
+        SType::vec(T::sim_type(env))
+    }
+    fn gen(rng: &mut Rng, size: usize) -> Self {
+        Vec::<T>::gen(rng, size).into_iter().collect()
+    }
+    fn av(&self, c: bool) -> AV {
+        AV::Vec(self.iter().map(|v| v.av(c)).collect())
+    }
+}
+impl<T: SimTy + Ord> SimTy for BinaryHeap<T> {
+    fn name() -> String {
+        format!("BinaryHeap<{}>", T::name())
+    }
+    fn sim_type(env: &mut SEnv) -> SType {
+        SType::vec(T::sim_type(env))
+    }
+    fn gen(rng: &mut Rng, size: usize) -> Self {
+        Vec::<T>::gen(rng, size).into_iter().collect()
+    }
+    fn av(&self, c: bool) -> AV {
+        // heap order is an implementation detail: a multiset
+        let mut v: Vec<AV> = self.iter().map(|v| v.av(c)).collect();
+        if c {
+            sort_avs(&mut v);
+        }
+        AV::Vec(v)
+    }
+}
+impl<T: SimTy + Copy> SimTy for std::cell::Cell<T> {
+    fn name() -> String {
+        format!("Cell<{}>", T::name())
+    }
+    fn sim_type(env: &mut SEnv) -> SType {
+        T::sim_type(env)
+    }
+    fn gen(rng: &mut Rng, size: usize) -> Self {
+        std::cell::Cell::new(T::gen(rng, size))
+    }
+    fn av(&self, c: bool) -> AV {
+        self.get().av(c)
+    }
+}
+impl<const N: usize> SimTy for serde_bytes::ByteArray<N> {
+    fn name() -> String {
+        format!("ByteArray<{N}>")
+    }
+    fn sim_type(_: &mut SEnv) -> SType {
+        SType::vec(SType::Prim(Prim::Nat8))
+    }
+    fn gen(rng: &mut Rng, _: usize) -> Self {
+        let b = rng.bytes(N);
+        let mut a = [0u8; N];
+        a.copy_from_slice(&b);
+        serde_bytes::ByteArray::new(a)
+    }
+    fn av(&self, _: bool) -> AV {
+        AV::Vec(self.iter().map(|b| AV::NatN(8, *b as u64)).collect())
+    }
+}
 impl<T: SimTy + Ord> SimTy for BTreeSet<T> {
     fn name() -> String {
         format!("BTreeSet<{}>", T::name())
@@ -599,6 +663,11 @@ pub fn build() -> Vec<DynType> {
     // round-2 strengthening: reserved before variants, asymmetric trees, knotted optional field, non-ASCII method names
     reg!(v; (Reserved, E1), (Reserved, E2), (Reserved, Result<Nat, String>), Vec<(Reserved, Option<E2>)>, BTreeMap<Reserved, E2>, RsvE, RsvR, Vec<RsvE>, (Reserved, Option<E1>, u8),
          NatTree, IntTree, Vec<NatTree>, Option<IntTree>, OldList, NewList, Vec<OldList>, (OldList, u8), ServRefU, Vec<ServRefU>, Option<ServRefU>);
+    // several instantiations / Rust types with one Candid type / less common std containers in one message
+    reg!(v; (G<u8>, G<Nat>), (G<Nat>, G<u8>, G<Nat>), Vec<(G<u8>, G<S1>)>, (VarV1, E2, VarV2), (NatTree, IntTree), (List, OldList), (RecV1, S1, RecV1), (Vec<u8>, serde_bytes::ByteBuf, Bytes1),
+         LinkedList<Nat>, LinkedList<String>, LinkedList<Option<Int>>, BinaryHeap<u32>, BinaryHeap<Int>, BinaryHeap<String>, std::cell::Cell<u32>, Vec<std::cell::Cell<i64>>,
+         serde_bytes::ByteArray<4>, serde_bytes::ByteArray<0>, (serde_bytes::ByteArray<2>, u8), Option<Option<Option<u8>>>, Vec<Option<Option<Nat>>>, Option<()>, Option<Reserved>, Vec<Option<()>>,
+         (FuncRef, FuncRefV2, ServRef), Vec<FuncRef>, BTreeMap<String, FuncRef>, (f32, f64, Vec<f32>), BTreeMap<(u8, String), Vec<Int>>, HashMap<(Int, Nat), String>, [Int; 0], [Vec<Nat>; 2]);
     // names must be unique
     let mut seen = BTreeSet::new();
     v.retain(|d| seen.insert(d.name.clone()));
